@@ -124,6 +124,76 @@ Proof.
   destruct (coll_touch s) as [s1 ok]. destruct ok; split; auto.
 Qed.
 
+(* ---------- keyed dict operations ---------- *)
+Definition k3 (s s' : st) : Prop := keepDB s s' /\ keepX s s' /\ keepB s s'.
+Lemma k3_refl : forall s, k3 s s. Proof. intros; split; [|split]; unfold keepX; auto. Qed.
+Lemma k3_trans : forall s1 s2 s3, k3 s1 s2 -> k3 s2 s3 -> k3 s1 s3.
+Proof.
+  intros s1 s2 s3 (A & [B1 B2] & C) (A' & [B1' B2'] & C'). split; [|split].
+  - eapply keepDB_trans; eauto. - split; congruence. - eapply keepB_trans; eauto.
+Qed.
+Lemma before_pop_k3 : forall s, k3 s (before_pop s).
+Proof. intros s. dstate s. unfold k3, before_pop, mod_c. frame_solve. Qed.
+Lemma coll_event_set_k3 : forall s l, k3 s (set_c_d l (coll_event s)).
+Proof. intros s l. apply (coll_event_frame s l). Qed.
+Lemma dict_setitem_k3 : forall o s, k3 s (dict_setitem o s).
+Proof.
+  intros o s. unfold dict_setitem. destruct (same_key o (cur_coll s)).
+  - apply (coll_event2_frame s). - apply coll_event_set_k3.
+Qed.
+Lemma update_fold_k3 : forall l s, k3 s (fold_left update_one l s).
+Proof.
+  induction l as [|o rest IH]; intros s; cbn [fold_left]; [apply k3_refl|].
+  eapply k3_trans; [|apply IH]. unfold update_one.
+  destruct (holder o (cur_coll s)) as [p|]; [destruct (p =? o); [apply k3_refl|]|]; apply dict_setitem_k3.
+Qed.
+Lemma c_frame_k3 : forall s s1 s2, c_frame s s1 -> k3 s1 s2 -> c_frame s s2.
+Proof. intros s s1 s2 F (A & B & C). eapply c_frame_touch; eauto. Qed.
+
+Ltac touch_frame s :=
+  destruct (coll_touch_frame s) as (D0 & X0 & B0 & _);
+  destruct (coll_touch s) as [s1 ok]; cbn [fst] in *;
+  assert (R0 : c_frame s s1) by (split; [|split]; auto);
+  destruct (negb ok); [exact R0|].
+
+Lemma c_pop_frame : forall d o s, c_frame s (fst (c_pop d o s)).
+Proof.
+  intros d o s. unfold c_pop. touch_frame s.
+  destruct (holder o (cur_coll s1)); cbn [fst].
+  - eapply c_frame_k3; [exact R0|]. eapply k3_trans; [apply before_pop_k3|apply coll_event_set_k3].
+  - destruct d; cbn [fst]; (eapply c_frame_k3; [exact R0|apply before_pop_k3]).
+Qed.
+Lemma c_popitem_frame : forall s, c_frame s (fst (c_popitem s)).
+Proof.
+  intros s. unfold c_popitem. touch_frame s.
+  destruct (last_of (cur_coll s1)); cbn [fst].
+  - eapply c_frame_k3; [exact R0|]. eapply k3_trans; [apply before_pop_k3|apply coll_event_set_k3].
+  - eapply c_frame_k3; [exact R0|apply before_pop_k3].
+Qed.
+Lemma c_delkey_frame : forall o s, c_frame s (fst (c_delkey o s)).
+Proof.
+  intros o s. unfold c_delkey. touch_frame s.
+  destruct (holder o (cur_coll s1)); cbn [fst]; [|exact R0].
+  eapply c_frame_k3; [exact R0|apply coll_event_set_k3].
+Qed.
+Lemma c_setdefault_frame : forall o s, c_frame s (fst (c_setdefault o s)).
+Proof.
+  intros o s. unfold c_setdefault. touch_frame s.
+  destruct (same_key o (cur_coll s1)); cbn [fst]; [exact R0|].
+  eapply c_frame_k3; [exact R0|apply coll_event_set_k3].
+Qed.
+Lemma c_update_frame : forall l s, c_frame s (fst (c_update l s)).
+Proof.
+  intros l s. unfold c_update. touch_frame s. cbn [fst].
+  eapply c_frame_k3; [exact R0|apply update_fold_k3].
+Qed.
+Lemma c_clear_frame : forall s, c_frame s (fst (c_clear s)).
+Proof.
+  intros s. unfold c_clear. touch_frame s.
+  destruct (cur_coll s1); cbn [fst]; [exact R0|].
+  eapply c_frame_k3; [exact R0|apply coll_event_set_k3].
+Qed.
+
 (* every operation other than flush leaves the database alone *)
 Lemma step_keepDB : forall k o s, is_flush o = false -> keepDB s (fst (step k o s)).
 Proof.
@@ -135,13 +205,19 @@ Proof.
   - apply c_add_frame. - apply c_rem_frame. - apply c_replace_frame. - apply c_del_frame.
   - apply c_get_frame.
   - dstate s. unfold expire. unfold keepDB. brv; auto.
+  - apply c_pop_frame. - apply c_pop_frame. - apply c_popitem_frame. - apply c_delkey_frame.
+  - apply c_setdefault_frame. - apply c_update_frame. - apply c_clear_frame.
 Qed.
 
 (* operations that are not about x only ever refresh a clean x from the database *)
 Definition on_x (o : op) : bool := match o with SetX _ | DelX => true | _ => false end.
 Definition on_b (o : op) : bool := match o with SetB _ | DelB | GetB => true | _ => false end.
 Definition on_c (o : op) : bool :=
-  match o with CAdd _ | CRem _ | CReplace _ | CDel | CGet => true | _ => false end.
+  match o with
+  | CAdd _ | CRem _ | CReplace _ | CDel | CGet
+  | CPop _ | CPopD _ | CPopItem | CDelKey _ | CSetDefault _ | CUpdate _ | CClear => true
+  | _ => false
+  end.
 
 Lemma step_loadX : forall k o s, is_sync o = false -> on_x o = false -> loadX s (fst (step k o s)).
 Proof.
@@ -151,6 +227,8 @@ Proof.
   - rewrite read_fst. apply get_b_frame.
   - apply c_add_frame. - apply c_rem_frame. - apply c_replace_frame. - apply c_del_frame.
   - apply c_get_frame.
+  - apply c_pop_frame. - apply c_pop_frame. - apply c_popitem_frame. - apply c_delkey_frame.
+  - apply c_setdefault_frame. - apply c_update_frame. - apply c_clear_frame.
 Qed.
 
 Lemma step_keepB : forall k o s, is_sync o = false -> on_b o = false -> keepB s (fst (step k o s)).
@@ -160,6 +238,8 @@ Proof.
   - rewrite read_fst. apply get_x_frame.
   - apply c_add_frame. - apply c_rem_frame. - apply c_replace_frame. - apply c_del_frame.
   - apply c_get_frame.
+  - apply c_pop_frame. - apply c_pop_frame. - apply c_popitem_frame. - apply c_delkey_frame.
+  - apply c_setdefault_frame. - apply c_update_frame. - apply c_clear_frame.
 Qed.
 
 Lemma step_keepC : forall k o s, is_sync o = false -> on_c o = false -> keepC s (fst (step k o s)).
